@@ -183,8 +183,7 @@ pub fn run_case(p: &Profile, case: &CaseA, case_seed: u64, nthreads: usize) -> E
         let mut waits = 0u64;
         while root.is_some() {
             steps += 1;
-            PROGRESS.fetch_add(1, Ordering::Relaxed);
-            if steps > engine_a::STEP_CAP {
+            if steps > 20 * engine_a::STEP_CAP {
                 out.inconclusive = Some("harness step budget exceeded".into());
                 break;
             }
@@ -217,7 +216,13 @@ pub fn run_case(p: &Profile, case: &CaseA, case_seed: u64, nthreads: usize) -> E
                     waits += 1;
                     let t = sh.t.lock().unwrap();
                     if !(t.woken_epoch >= epoch || (t.wakers.is_empty() && t.in_flight == 0)) {
-                        let _ = sh.cv_main.wait_timeout(t, Duration::from_millis(50)).unwrap();
+                        if cfg!(miri) {
+                            // no timeout under Miri: if a firing thread is blocked forever inside wake(), every
+                            // thread is blocked and Miri reports the deadlock definitively
+                            let _g = sh.cv_main.wait(t).unwrap();
+                        } else {
+                            let _g = sh.cv_main.wait_timeout(t, Duration::from_millis(50)).unwrap();
+                        }
                     }
                     continue;
                 }
@@ -227,6 +232,12 @@ pub fn run_case(p: &Profile, case: &CaseA, case_seed: u64, nthreads: usize) -> E
             }
             polls += 1;
             epoch += 1;
+            // (waiting does not count as progress: a firing thread stuck inside wake() is then seen by the watchdog)
+            PROGRESS.fetch_add(1, Ordering::Relaxed);
+            if polls > engine_a::STEP_CAP {
+                out.inconclusive = Some("harness step budget exceeded".into());
+                break;
+            }
             let waker = Waker::from(Arc::new(TRoot { sh: sh.clone(), epoch }));
             {
                 let mut t = sh.t.lock().unwrap();
